@@ -138,6 +138,8 @@ type Options struct {
 	LazyStart   bool   // a new goroutine starts only when scheduled (its start is a visible step): explores
 	                   // delayed goroutine starts, e.g. a closure reading a loop variable the parent reassigns
 	Jitter      bool   // enumerate math/rand.Float64 answers (back-off jitter)
+	SpawnYield  bool   // the `go` statement is a scheduling point of the parent as well (others may run between
+	                   // two goroutine starts of one loop): exposes unsynchronised accesses around spawn loops
 }
 
 // ThreadAlt describes one alternative of a scheduling decision.
@@ -350,9 +352,12 @@ func Go(f func()) {
 	w.launch(g, f)
 	if w.opts.LazyStart {
 		g.pending = &op{kind: opNop, name: "goroutine-start", eff: func() { g.hash = mix(g.hash, 0x57a47) }}
-		return
+	} else {
+		w.resumed = append(w.resumed, g)
 	}
-	w.resumed = append(w.resumed, g)
+	if w.opts.SpawnYield {
+		w.yield(&op{kind: opNop, name: "go", global: true, eff: func() { self.hash = mix(self.hash, 0x60) }})
+	}
 }
 
 func itoa(i int) string { return strconv.Itoa(i) }
